@@ -1587,6 +1587,31 @@ def t16_observer_effects():
                 if isinstance(st, (ast.Assign, ast.AnnAssign)) and st.value is not None and \
                         isinstance(st.value, (ast.Dict, ast.List, ast.Set)):
                     shared.append((f"{rel}:{cls.name}", "mutable class-level default " + ast.unparse(st)))
+    # hooks that change what attribute access, copying or the observers themselves do without a visible statement in their
+    # bodies: attribute / copy protocol methods on any class under nir/, and decorators on observers, on the reader and the writer
+    hooks = []
+    benign = {"property", "classmethod", "staticmethod", "dataclass"}
+    for path in sorted(glob.glob(os.path.join(REPO, "nir", "**", "*.py"), recursive=True)):
+        rel = os.path.relpath(path, REPO)
+        tree = ast.parse(_src(rel))
+        D2 = ExprT(item, "num", {})
+        for cls in [n for n in ast.walk(tree) if isinstance(n, ast.ClassDef)]:
+            for sub in cls.body:
+                if isinstance(sub, ast.FunctionDef) and sub.name in (
+                        "__setattr__", "__getattribute__", "__getattr__", "__delattr__", "__new__", "__copy__", "__deepcopy__",
+                        "__reduce__", "__reduce_ex__", "__getstate__", "__setstate__", "__init_subclass__", "__set_name__",
+                        "__class_getitem__", "__hash__", "__del__"):
+                    hooks.append((f"{rel}:{cls.name}", "defines " + sub.name))
+                if isinstance(sub, ast.FunctionDef) and sub.name in ("to_dict", "from_dict", "inputs", "outputs", "_check_types",
+                                                                      "infer_types", "_forward_type_inference", "__post_init__"):
+                    for dec in sub.decorator_list:
+                        dd = (D2.dotted(dec.func if isinstance(dec, ast.Call) else dec) if isinstance(dec.func if isinstance(dec, ast.Call) else dec, (ast.Name, ast.Attribute)) else None) or ast.unparse(dec)
+                        if dd.split(".")[-1] not in benign:
+                            hooks.append((f"{rel}:{cls.name}.{sub.name}", "decorated with @" + dd))
+        if rel.endswith("serialization.py") or rel.endswith(os.path.join("ir", "utils.py")) or rel.endswith(os.path.join("ir", "__init__.py")):
+            for fn in [n for n in tree.body if isinstance(n, ast.FunctionDef)]:
+                for dec in fn.decorator_list:
+                    hooks.append((f"{rel}:{fn.name}", "decorated with @" + ast.unparse(dec)))
     need = ["NIRNode.to_dict", "NIRGraph.to_dict", "NIRGraph.inputs", "NIRGraph.outputs", "NIRGraph._check_types", "write"]
     miss = [n for n in need if n not in observers]
     if miss:
@@ -1606,7 +1631,12 @@ def t16_observer_effects():
         "/-- state in `nir/` that outlives a call and could be shared between the results of separate calls: mutable default\n" \
         "    arguments, memoising decorators, `global`, memory maps / buffer views, module-level containers mutated by a function,\n" \
         "    mutable class-level defaults -/\n" \
-        "def sharedState : List (String × String) :=\n  [" + ", ".join(row(r) for r in dedup(shared)) + "]\n\nend NirVerif.Generated.ObserverEffects\n"
+        "def sharedState : List (String × String) :=\n  [" + ", ".join(row(r) for r in dedup(shared)) + "]\n\n" \
+        "/-- hooks that act without a statement in the bodies read above: attribute / copy protocol methods (`__setattr__`,\n" \
+        "    `__getattribute__`, `__deepcopy__`, `__hash__`, …) defined by a class under `nir/`; decorators other than `property` /\n" \
+        "    `classmethod` / `staticmethod` on `to_dict`, `from_dict`, the accessors, the type check, inference and `__post_init__`;\n" \
+        "    any decorator on a module-level function of `serialization.py`, `ir/utils.py`, `ir/__init__.py` -/\n" \
+        "def hooks : List (String × String) :=\n  [" + ", ".join(row(r) for r in dedup(hooks)) + "]\n\nend NirVerif.Generated.ObserverEffects\n"
     return {"ObserverEffects.lean": txt}
 
 
